@@ -680,7 +680,12 @@ class Interp:
                     # compile time there - a typing quirk, nothing runs wrongly - so importers clear through the method)
                     em.code("%s.unlink()" % an)
                 else:
-                    em.code("%s.peer = nil" % an)
+                    # through a handle with a declared class type: a handle that a `Self`-returning method produced has lost the
+                    # `?` of its optional fields in the compiler's eyes (`v.peer = nil` is rejected at compile time there — the
+                    # same typing quirk as on an importer's side; nothing runs wrongly)
+                    self.n_unl = getattr(self, "n_unl", 0) + 1
+                    em.code("tu%d: %s = %s" % (self.n_unl, a.cls, an))
+                    em.code("tu%d.peer = nil" % self.n_unl)
                 a.peer = None
             elif m == "peern":
                 if "peer" not in f or a.peer is None:
